@@ -7,10 +7,11 @@
 #include <string.h>
 #include <stddef.h>
 #include <sys/types.h>
-static int script[16], slen, spos, final_ok, calls;
+static int script[16], slen, spos, final_ok, calls, longrun;
 static long os(void *buf, size_t n, long okval)
 {
   calls++;
+  if (longrun > 0 && calls <= longrun) { errno = (calls & 1) ? EINTR : EAGAIN; return -1; }
   if (spos < slen) { errno = script[spos++]; return -1; }
   if (!final_ok) { errno = EIO; memset(buf, 0x77, n); return -1; }
   for (size_t i = 0; i < n; i++) ((unsigned char *)buf)[i] = (unsigned char)(0xC0 + i);
@@ -37,6 +38,17 @@ int main(void)
           if (calls != len + 1) bad = 1;
           if (bad && nfail++ < 6) { printf("FAIL trng (%s variant): fault sequence [", nm[v]); for (int i = 0; i < len; i++) printf("%s ", script[i] == EINTR ? "EINTR" : "EAGAIN"); printf("%s]: returned %d, %d OS calls, buffer[0]=%02x\n", ok ? "success" : "permanent", r, calls, out[0]); }
         }
+  /* long transient runs (a retry budget would show here): n failures then success */
+  static const int LONG[] = {100, 1000, 1001, 5000, 70000};
+  for (int v = 0; v < 3; v++)
+    for (int q = 0; q < 5; q++) {
+      unsigned char out[32]; memset(out, 0x5A, 32);
+      longrun = LONG[q]; slen = 0; spos = 0; final_ok = 1; calls = 0;
+      int r = fn[v](out), bad = (r != 1) || calls != LONG[q] + 1;
+      for (int i = 0; i < 32; i++) if (out[i] != (unsigned char)(0xC0 + i)) bad = 1;
+      longrun = 0;
+      if (bad && nfail++ < 6) printf("FAIL trng (%s variant): %d transient errors followed by success: returned %d after %d OS calls, buffer[0]=%02x\n", nm[v], LONG[q], r, calls, out[0]);
+    }
   printf("diff_trng: %d failures\n", nfail);
   return nfail ? 1 : 0;
 }
